@@ -152,6 +152,7 @@ def run(ctx):
     in_coq_corr(ctx, rnd, 900 if ctx.tier == "quick" else 8000)
     n = 600 if ctx.tier == "quick" else 6000
     cases = families.layout_cases(rnd, n, prefix="L")
+    cases += families.call_update_call(rnd, cases, 60 if ctx.tier == "quick" else 400)
     family.evaluate(ctx, cases, want=("oracle", "traced", "static"))
     ctx.sample({"impl": cases[7]["impl"], "inputs": {k: v["shape"] for k, v in cases[7]["inputs"].items()}, "dtype": cases[7]["meta"]["dtype"]})
     f = ctx.work / "C11_static.v"
